@@ -328,10 +328,11 @@ func C17(c *Ctx) {
 	c.lineSubjectRule("C17-8")
 	c.cutRangeRule("C17-9")
 
-	r.Rule("C17-5", "util.GetDocCommentOn returns only `Doc` comment groups of the enclosing declaration nodes (never a trailing line comment), each under a non-nil test of that same Doc link")
+	r.Rule("C17-5", "util.GetDocCommentOn returns only `Doc` comment groups of the enclosing declaration nodes (never a trailing line comment, never the file's doc comment), each under a non-nil test of that same Doc link")
 	if fn := c.MustFunc("C17-5", "/pkg/util", "GetDocCommentOn"); fn != nil {
 		// isDocAddr: the address is &X.Doc of an ast node (possibly through a local pointer variable / φ)
 		nilEdge := map[*ssa.Phi]bool{}
+		sawFileDoc := false
 		var isDocAddr func(a ssa.Value, d int) bool
 		isDocAddr = func(a ssa.Value, d int) bool {
 			if d > 4 {
@@ -340,6 +341,10 @@ func C17(c *Ctx) {
 			switch x := a.(type) {
 			case *ssa.FieldAddr:
 				n := core.FieldName(x.X.Type(), x.Field)
+				if n == "ast.File.Doc" {
+					sawFileDoc = true // the package documentation belongs to no declaration
+					return false
+				}
 				return len(n) > 8 && n[:4] == "ast." && n[len(n)-4:] == ".Doc"
 			case *ssa.Phi:
 				for _, e := range x.Edges {
@@ -402,6 +407,24 @@ func C17(c *Ctx) {
 			r.Check("C17-5", sprintf("%s:return%d", FnKey(fn), i+1), c.InstrPos(ret), okDoc && d.Implies(nonNil), "the doc lookup may return something other than a non-nil Doc group: "+t.String())
 		}
 		r.Floor("C17-5", "Doc-returning branches of GetDocCommentOn", n, 1)
+		// no branch of the lookup reads File.Doc at all
+		for _, b := range fn.Blocks {
+			for _, in := range b.Instrs {
+				if fa, ok := in.(*ssa.FieldAddr); ok && core.FieldName(fa.X.Type(), fa.Field) == "ast.File.Doc" {
+					sawFileDoc = true
+				}
+			}
+		}
+		for _, af := range fn.AnonFuncs {
+			for _, b := range af.Blocks {
+				for _, in := range b.Instrs {
+					if fa, ok := in.(*ssa.FieldAddr); ok && core.FieldName(fa.X.Type(), fa.Field) == "ast.File.Doc" {
+						sawFileDoc = true
+					}
+				}
+			}
+		}
+		r.Check("C17-5", FnKey(fn)+":not-the-package-doc", c.Pos(fn.Pos()), !sawFileDoc, "the doc lookup can end at File.Doc: the package documentation is then taken for the doc comment of an undocumented interface or method (copied above generated functions, deleted from the output, its notation-like lines applied to whichever declaration comes first)")
 	}
 
 	r.Rule("C17-4", "marker identity: both InsertComment calls of an entry plant that entry's marker at positions taken from the interface's own declaration (ToAstNode(file, entry.intf)); the cut regexp and the replacement use the same entry's marker")
